@@ -326,7 +326,11 @@ def s_cases(thorough):
     bigb = st.builds(lambda seed, n: {"t": "bytes", "gen": [seed, n]}, st.integers(0, 2 ** 32), st.sampled_from([20000, 33000, 40000, 66000, 100000, 140000] if not thorough else
                                                                                                  [20000, 33000, 40000, 66000, 100000, 140000, 300000, 1100000]))
     byts = st.one_of(byts, byts, byts, byts, bigb)
-    text = st.text(alphabet=st.characters(blacklist_categories=("Cs",)), max_size=20).map(lambda s: {"t": "text", "s": s})
+    # characters that text-handling code likes to treat specially, at the start, inside and at the end of a string
+    special = st.sampled_from(["\ufeff", "\ufffe", "\u0000", "\ufffd", "\u200b", "\u2028", "\u0085", "\r\n", "\ue000", "\ud7ff", "\U0010ffff", "\u0301", "\u202e", "\x7f", "\x80"])
+    plain = st.text(alphabet=st.characters(blacklist_categories=("Cs",)), max_size=20)
+    text = st.one_of(plain, plain, st.builds(lambda a, sp, b, c: a + sp + b + c, st.sampled_from(["", "", "a"]), special, st.text(alphabet="abé ", max_size=4), st.one_of(st.just(""), special))
+                     ).map(lambda s: {"t": "text", "s": s})
     cps = st.one_of(st.integers(0, 0x10FFFF), st.sampled_from([0, 0x7f, 0x80, 0x7ff, 0x800, 0xd7ff, 0xd800, 0xdfff, 0xe000, 0xffff,
                                                                 0x10000, 0x10ffff, 0x110000, -1])).map(lambda cp: {"t": "chr", "cp": cp})
     js = s_jsonval(3).map(lambda v: {"t": "json", "text": json.dumps(v, ensure_ascii=False), "depth": jdepth(v)})
